@@ -33,6 +33,7 @@ impl<'a> Decode<'a> for MessageHeader<'a> {
             &&& h.bits == 0
         },
 //@after "let msg_type = BigEndian::read_u16("
+    proof { lemma_bitops_commute(); }
     assert((msg_type >> 14u16) <= 3u16) by (bit_vector);
     assert(((msg_type >> 14u16) == 0u16) <==> msg_type < 16384u16) by (bit_vector);
     assert(msg_type & 0x3FFFu16 == msg_type % 16384u16) by (bit_vector);
